@@ -170,7 +170,7 @@ Definition is_pos_finite (x : b64) : bool :=
   match x with S754_finite false _ _ => true | _ => false end.
 
 (** checks of one printed value [str] for value [v] under the observed scale *)
-Definition printed_ok (cls : class) (p : Z) (pre : bytes) (v : b64) (str : bytes) : option Z :=
+Definition printed_ok_gen (relax : bool) (cls : class) (p : Z) (pre : bytes) (v : b64) (str : bytes) : option Z :=
   (* returns the scaled integer printed, if the text is well-formed and within half a unit *)
   match v with
   | S754_nan => if beq str (bs "NaN" ++ pre) then Some 0 else None
@@ -191,8 +191,12 @@ Definition printed_ok (cls : class) (p : Z) (pre : bytes) (v : b64) (str : bytes
           (* KNOWN FINDING C10_shared_scale_quotient_overflow: the real code prints
              "+Inf<prefix>" there, which is not within half a unit of the value, so the
              property fails on such a case (the harness tags it; corr_ok still ties
-             the model's +Inf to the code's) *)
-          None
+             the model's +Inf to the code's).  With [relax] (the judge of the known
+             finding, [known_ok]) exactly this outcome is allowed: the text is the
+             infinity of the value's sign and the exact quotient really is out of range *)
+          if relax && beq str ((if s then bs "-Inf" else bs "+Inf") ++ pre)
+             && (2 ^ 1023 * fn * 2 ^ (Z.max (- e) 0) <=? Zpos m * 2 ^ (Z.max e 0) * fd)
+          then Some (2 ^ 1100) else None
       | Some pf, Some (fn, fd) =>
           if Bool.eqb (pf_neg pf) s && (Z.of_nat (pf_prec pf) =? p) && beq (pf_rest pf) pre
              && half_unit_ok true 51 m e (pf_scaled pf) (pf_prec pf) fn fd
@@ -203,12 +207,14 @@ Definition printed_ok (cls : class) (p : Z) (pre : bytes) (v : b64) (str : bytes
       end
   end.
 
+Definition printed_ok := printed_ok_gen false.
+
 Fixpoint zip {A B} (a : list A) (b : list B) : list (A * B) :=
   match a, b with x :: a', y :: b' => (x, y) :: zip a' b' | _, _ => [] end.
 
 Definition has_nan (vals : list b64) : bool := existsb b64_is_nan vals.
 
-Definition prop_common (cls : class) (vals : list b64) (s : obs_scaler) (strs : list bytes)
+Definition prop_common_gen (relax : bool) (cls : class) (vals : list b64) (s : obs_scaler) (strs : list bytes)
            (ss : option bytes) (same : bool) : bool :=
   if has_nan vals then true   (* the property is silent about NaN; behaviour there is compared by corr_ok only *)
   else
@@ -224,7 +230,7 @@ Definition prop_common (cls : class) (vals : list b64) (s : obs_scaler) (strs : 
           let mn := spec_min vals in
           same
           && forallb (fun '(v, str) =>
-               match printed_ok cls p pre v str with
+               match printed_ok_gen relax cls p pre v str with
                | None => false
                | Some n =>
                    match v with
@@ -244,6 +250,8 @@ Definition prop_common (cls : class) (vals : list b64) (s : obs_scaler) (strs : 
          | _, _ => true
          end
   end.
+
+Definition prop_common := prop_common_gen false.
 
 (** a row of a real table, judged by the shared-scale clause on what the text
     shows: precision and prefix are read from the first centre that is a
@@ -319,8 +327,17 @@ Definition prop_ok (c : case) : bool :=
       end
   end.
 
+(** the judge of known finding C10_shared_scale_quotient_overflow: everything [prop_ok]
+    demands, except that a finite value whose exact quotient by the shared factor
+    is out of the binary64 range may print as the infinity of its sign *)
+Definition known_ok (c : case) : bool :=
+  match c with
+  | KCommon cls vals s strs ss same => prop_common_gen true cls vals s strs ss same
+  | _ => prop_ok c
+  end.
+
 Definition run_case (s : sx) : N :=
   match decode s with
-  | Some c => code_of (corr_ok c) (prop_ok c)
+  | Some c => code_of3 (corr_ok c) (prop_ok c) (known_ok c)
   | None => code_undecodable
   end.
